@@ -416,6 +416,7 @@ def primitives(ctx):
                 p.call('rdp.plot_frame', pts, {'list': [0, n - 1]}, 0)
             else:
                 p.call('evaluation.compute_global_segment_cost', pts, {'list': [0, n - 1] if rng.random() < 0.5 else [0]})
+    byname_calls(ctx, p, ci)
     if not p.steps:
         p.call('linear_fit.linear_fit_points', pts)
     return p.out()
@@ -471,12 +472,9 @@ def streaming(ctx):
     return p.out()
 
 
-SOAK_FUNCTIONS = ['convex_hull.graham_scan', 'convex_hull.graham_scan_lower', 'linear_fit.linear_fit_points', 'linear_fit.r2_points',
-                  'linear_fit.linear_fit_residuals_points', 'linear_fit.shortest_distance_points', 'menger.knee', 'curvature.knee',
-                  'dfdt.knee', 'kneedle.knee', 'lmethod.get_knee', 'knee_ranking.rank', 'knee_ranking.distances',
-                  'clustering.single_linkage', 'clustering.average_linkage', 'rdp.rdp_fixed', 'rdp.grdp',
-                  'evaluation.compute_global_rmse', 'evaluation.compute_global_cost', 'evaluation.mip', 'zmethod.getPoints',
-                  'postprocessing.triangle_area']
+def _soak_functions():
+    from . import c20
+    return sorted(c20.SOAK_TARGETS)
 
 
 def soak(ctx):
@@ -486,12 +484,64 @@ def soak(ctx):
     p = Prog('soak')
     for _ in range(rng.randint(1, 2)):
         if rng.random() < 0.5:
-            p.call('caller.soak', rng.choice(SOAK_FUNCTIONS), rng.choice([150, 300, 600, 1100]), rng.randrange(1 << 30), rng.choice([6, 7, 9]))
+            p.call('caller.soak', rng.choice(_soak_functions()), rng.choice([150, 300, 600, 1100]), rng.randrange(1 << 30), rng.choice([6, 7, 9]))
         else:
-            p.call('caller.laysoak', rng.choice(SOAK_FUNCTIONS), rng.choice([60, 120, 250]), rng.randrange(1 << 30),
-                   rng.choice([3, 4, 5, 6, 7, 8, 9, 12, 17, 33]), rng.choice(['F', 'Fview', 'view', 'neg', 'int64']))
+            p.call('caller.laysoak', rng.choice(_soak_functions()), rng.choice([60, 120, 250]), rng.randrange(1 << 30),
+                   rng.choice([3, 4, 5, 6, 7, 8, 9, 12, 17, 33]), rng.choice(['F', 'Fview', 'view', 'neg', 'int64', 'int64+F', 'int64+view']))
         p.steps[-1]['nodup'] = True
     return p.out()
+
+
+EXTRA_CALLS = []      # [(qualified name, [parameter names])]: public functions the catalogue does not know (set by the adapter)
+
+
+def byname_args(ctx, ci, params):
+    """Arguments for a public function the catalogue has no entry for, from the package's naming conventions.
+    Returns None if a required parameter cannot be served."""
+    rng = ctx.rng
+    n = ctx.n(ci)
+    pts = P(ci)
+    idxs = ctx.of_kind('idx', ci)
+    ex = ctx.of_kind('expected', ci)
+    args = []
+    for name, has_default in params:
+        if name in ('points', 'pt', 'p', 'curve', 'trace', 'data'):
+            args.append(pts)
+        elif name == 'x':
+            args.append(COL(pts, 0))
+        elif name in ('y', 'y_hat', 'yhat', 'gradient', 'array', 'values'):
+            args.append(COL(pts, 1))
+        elif name in ('knees', 'indexes', 'idx', 'candidates') and idxs:
+            args.append(P(rng.choice(idxs)))
+        elif name == 'reduced':
+            args.append({'concat': [0, n // 2, n - 1]})
+        elif name == 'expected' and ex:
+            args.append(P(rng.choice(ex)))
+        elif name in ('a', 'b', 'start', 'end', 'f', 'g', 'h', 'point'):
+            args.append(ROW(pts, rng.randrange(n)))
+        elif name == 'coef' or name.startswith('coef'):
+            args.append({'list': [F(1.0), F(-0.5)]})
+        elif name == 'cost':
+            args.append(E('metrics.Metrics.' + rng.choice(METRICS)))
+        elif name in ('clustering',):
+            args.append(FN('clustering.' + rng.choice(CLUSTERINGS)))
+        elif has_default:
+            break                     # leave this and the remaining parameters at their defaults
+        elif name in ('t', 't1', 'tx', 'ty', 'eps', 'dx', 'dy', 'dz', 'threshold', 'tau', 'sensitivity'):
+            args.append(F(rng.choice([0.05, 0.1, 0.5])))
+        elif name in ('t2', 'length', 'min_points', 'limit', 'index', 'left', 'right', 'i', 'k'):
+            args.append(rng.randint(1, max(1, min(n - 2, 5))))
+        else:
+            return None
+    return args
+
+
+def byname_calls(ctx, p, ci):
+    for qual, params in EXTRA_CALLS:
+        if ctx.rng.random() < 0.7:
+            a = byname_args(ctx, ci, params)
+            if a is not None:
+                p.call(qual, *a)
 
 
 CLIENT_KINDS = {'pipeline': pipeline, 'zclient': zclient, 'primitives': primitives, 'streaming': streaming, 'soak': soak}
